@@ -347,6 +347,31 @@ class Spec(core.PropSpec):
                                         f"stack={self._sig(stack)}: generator {p} of worker {w1} and {q} of worker {w2} replay (part of) the same "
                                         f"stream under all three base seeds")
                             break
+            # a seed space so small that members collide again and again: two or more independent overlapping pairs in ONE
+            # plan (under 31-bit derived seeds the chance of a single accidental pair is ~1e-7 per plan)
+            transient = set()
+            owner_of = {}
+            for k_ in sorted(G):
+                streams_seen = set()
+                for p_, (o_, g_) in sorted(G[k_].items()):
+                    sid = min(g_) if g_ else None  # aliased members of one worker share one generator by design: one stream
+                    if sid is None or sid in streams_seen:
+                        continue
+                    streams_seen.add(sid)
+                    for gram in g_:
+                        owner_of.setdefault(gram, set()).add((k_, p_))
+            for gram, owners in owner_of.items():
+                if len({o[0] for o in owners}) > 1:
+                    lst = sorted(owners)
+                    for i_ in range(len(lst)):
+                        for j_ in range(i_ + 1, len(lst)):
+                            if lst[i_][0] != lst[j_][0]:
+                                transient.add((lst[i_][0], lst[j_][0], lst[i_][1], lst[j_][1]))
+            if len(transient) >= 2 and not out.violations:
+                ex = sorted(transient)[:2]
+                out.violate("C09:derived-seed-collisions", "seed-derivation",
+                            f"stack={self._sig(stack)}: {len(transient)} independent pairs of generators in different workers / under different "
+                            f"base seeds replay the same stream within one plan, e.g. {ex}")
             # different base seeds, same worker id
             for w in range(K):
                 common = None
